@@ -5,6 +5,9 @@ import (
 	"fmt"
 	"math/rand"
 	"reflect"
+	"runtime"
+	"sync"
+	"time"
 
 	am "github.com/hashicorp/go-argmapper"
 )
@@ -449,5 +452,94 @@ func runC09SameNamedTypes(c *CaseCtx, r *rand.Rand) (res CaseResult) {
 		res.violate("C09", "not-as-before", fmt.Sprintf("first real call after planning: converter A ran %d times, B %d times, target %d times (a run-once converter must still execute on its first real use)", execA, execB, ranT), det)
 	}
 	res.Sample = det
+	return res
+}
+
+// runC04ConcurrentOnce: several calls first-use ONE shared run-once converter
+// at the same time. Its first execution succeeds, any further execution would
+// fail. A failing execution performed on behalf of a call obliges that call
+// to return exactly that error and not to run its target, whatever another
+// call's execution produced. (With a correct run-once there is one
+// execution, it succeeds, and every call succeeds.)
+func runC04ConcurrentOnce(c *CaseCtx, r *rand.Rand) (res CaseResult) {
+	t := distinctTypes(r, 3)
+	res.Key = fmt.Sprintf("concurrent-first-use-of-a-run-once-converter %v", t)
+	res.NonTrivial = true
+	res.obs("family.concurrent-once", 1)
+	old := runtime.GOMAXPROCS([]int{2, 4, 16}[r.Intn(3)])
+	defer runtime.GOMAXPROCS(old)
+	casePointHook = perturb(r.Uint64(), 1)
+	defer func() { casePointHook = nil }()
+	rounds := tierReps(c.Tier, 4, 10)
+	for round := 0; round < rounds; round++ {
+		w := NewWorld()
+		w.FailOn = func(fi, exec int, specFail bool) bool { return fi == 0 && exec >= 1 }
+		w.Delay = func(fi int) {
+			if fi == 0 {
+				time.Sleep(time.Duration(50+r.Intn(1)) * time.Microsecond)
+			}
+		}
+		spec := posFn([]int{t[0]}, []int{t[1]})
+		spec.Once, spec.HasErr = true, true
+		cv, err1 := w.Build(0, spec, r)
+		tg, err2 := w.Build(-1, posFn([]int{t[1]}, nil), r)
+		if err1 != nil || err2 != nil {
+			res.Skip = "instantiate"
+			return res
+		}
+		G := 3 + r.Intn(6)
+		outs := make([]Outcome, G)
+		start := make(chan struct{})
+		var wg sync.WaitGroup
+		for g := 0; g < G; g++ {
+			wg.Add(1)
+			args := []am.Arg{InputArg(Label{Type: t[0]}, w.FreshInput(g, 0, Label{Type: t[0]})), am.ConverterFunc(cv.Func)}
+			go func(g int, args []am.Arg) {
+				defer wg.Done()
+				<-start
+				outs[g] = DoCall(nil, tg.Func, args)
+			}(g, args)
+		}
+		close(start)
+		wg.Wait()
+		res.Evals += G
+		det := map[string]interface{}{"types": fmt.Sprint(t), "goroutines": G, "round": round}
+		evs := w.EventsFrom(0)
+		for _, e := range evs {
+			if e.Func != 0 || e.Err == nil {
+				continue
+			}
+			owners := map[int]bool{}
+			for _, a := range e.Args {
+				roots(w, a.ID, map[int64]bool{}, owners)
+			}
+			for k := range owners {
+				if k < 0 || k >= G {
+					continue
+				}
+				if outs[k].Err != e.Err {
+					res.violate("C04", "error-swallowed", fmt.Sprintf("an execution of the converter on behalf of call %d returned an error, but that call returned %v", k, outs[k].Err), det)
+				}
+				res.obs("failing_executions_attributed_to_a_call", 1)
+			}
+		}
+		if n := w.Execs(0); n > 1 {
+			res.violate("C11", "once-reexecuted-concurrently", fmt.Sprintf("shared run-once converter executed %d times", n), det)
+		}
+		okCalls := 0
+		for g, o := range outs {
+			if o.Class == ClsPanic {
+				res.violate("C06", "panic/concurrent-"+crashKey(o.Panic), "concurrent call panicked: "+o.Panic, det)
+			} else if o.Err == nil {
+				okCalls++
+			}
+			_ = g
+		}
+		if n := targetEvents(evs); n != okCalls {
+			res.violate("C04", "target-count", fmt.Sprintf("%d calls returned no error, the target ran %d times", okCalls, n), det)
+		}
+		res.obs("concurrent_first_use_rounds", 1)
+	}
+	res.Sample = map[string]interface{}{"family": "concurrent-once"}
 	return res
 }
